@@ -123,6 +123,11 @@ def constraint(prog, run):
 
 def check(prog, run):
     constraint(prog, run)
+    run.rule("R-stateless", "the identification changes no module-level table and no memoised value in place: the coefficients of one call do not depend on the "
+             "basis-function sign / order of the calls before it", 3)
+    from ..effects import shared_state_rule
+    reach_ = sorted(q for q in prog.reachable([prog.func("functions.plscf.pLSCF").qual, prog.func("functions.plscf.pLSCF_poles").qual]) if q in prog.functions and not q.startswith("pyoma2.functions.plot"))
+    shared_state_rule(prog, run, "R-stateless", reach_, "the model returned depends on the calls made before (another basis-function sign, another order)")
     run.rule("R-map", "ac2mp_poly: lambda_c = log(lambda_d)/dt, fn = |lambda_c|/(2 pi), xi = -Re(lambda_c)/|lambda_c|", 3)
     run.rule("R-blank", "Re(lambda) > 0 blanks eigenvalue and eigenvector column alike (same predicate, same array), before fn/xi/phi; inf frequency -> NaN", 5)
     run.rule("O-units", "pLSCF: exp argument dimensionless, alpha ~ S^0, beta ~ S^1 for both basis-function signs; poles ~ 1/s", 8)
@@ -164,7 +169,7 @@ def basis_sign(prog, run):
             ti.call_function(runf, [], {}, bound=C09.make_me(prog, ci, cq, method, False))
             calls = [(env, node) for q, env, node in ti.call_log if q == PL_]
             if not calls:
-                run.ob("R-sign", runf.qual, "sgn_basf", None if ti.unknown else False, f"plscf.pLSCF is not called by run() ({cfg})", witness="not called", file=f, node=runf.node, config=cfg)
+                run.ob("R-sign", runf.qual, "sgn_basf", None if (ti.unknown or ti.scoped) else False, f"plscf.pLSCF is not called by run() ({cfg})", witness="not called", file=f, node=runf.node, config=cfg)
                 continue
             for env, node in calls:
                 v = env.get("sgn_basf")
